@@ -18,6 +18,7 @@ from ..common import Scratch, from_us, quiet_stdout, rng_for
 from ..core import Violation
 from ..gen import BASE_US
 
+REPLAY_BY_RERUN = True  # workloads are deterministic in (tier, seed, shard): replay re-runs the shard
 SHARDS = {"quick": 4, "thorough": 8}
 TIMEOUT = {"quick": 900, "thorough": 3600}
 SIZES = {"quick": [0, 1, 10, 100, 1000, 5000], "thorough": [0, 1, 2, 10, 100, 1000, 5000, 20000]}
